@@ -344,12 +344,14 @@ Qed.
 
 (* ---- the rounds ---- *)
 Definition MM : nat := length (c_mechs c).
-Definition InvS (j : nat) (s : st) (b : list outev) : Prop :=
-  (j = (2 * MM + 2)%nat /\ s = start c /\ b = init_outs c) \/
+(* the phases after the first round *)
+Definition InvP (j : nat) (s : st) (b : list outev) : Prop :=
   (j = (2 * MM + 1)%nat /\ PhR2 MM s b) \/
   (PhS s b /\ j = (2 * length (snext s) + 2)%nat) \/
   (PhC s b /\ j = (2 * length (snext s) + 1)%nat) \/
   (j = 0%nat /\ PhE s b).
+Definition InvS (j : nat) (s : st) (b : list outev) : Prop :=
+  (j = (2 * MM + 2)%nat /\ s = start c /\ b = init_outs c) \/ InvP j s b.
 
 Lemma start_sasl : sidle (start c) /\ length (snext (start c)) = MM.
 Proof.
@@ -361,19 +363,18 @@ Qed.
 
 (* a Q4 outcome as the next phase, with a smaller measure *)
 Lemma Q4_next n j s o : Q4 n s o -> (2 * n < j)%nat ->
-  aborted o \/ fsm s = CONNECTED \/ exists j', (j' < j)%nat /\ InvS j' s o.
+  aborted o \/ fsm s = CONNECTED \/ exists j', (j' < j)%nat /\ InvP j' s o.
 Proof.
   intros [H|[H|[H Hn]]] Hj; [left; exact H| |].
-  - right. right. exists 0%nat. split; [lia|]. right. right. right. right. split; [reflexivity|exact H].
-  - right. right. exists (2 * length (snext s) + 2)%nat. split; [lia|]. right. right. left. split; [exact H|reflexivity].
+  - right. right. exists 0%nat. split; [lia|]. right. right. right. split; [reflexivity|exact H].
+  - right. right. exists (2 * length (snext s) + 2)%nat. split; [lia|]. right. left. split; [exact H|reflexivity].
 Qed.
 
-Lemma round_cap2 sigma : (forall batch hist, answers_batch true batch (sigma (batch :: hist))) ->
-  forall j s b hist, InvS j s b ->
-  let r := run_msgs c s (sigma (b :: hist)) in
-  aborted (snd r) \/ fsm (fst r) = CONNECTED \/ exists j', (j' < j)%nat /\ InvS j' (fst r) (snd r).
+Lemma round_cap2' j s b resp : InvS j s b -> answers_batch true b resp ->
+  let r := run_msgs c s resp in
+  aborted (snd r) \/ fsm (fst r) = CONNECTED \/ exists j', (j' < j)%nat /\ InvP j' (fst r) (snd r).
 Proof.
-  intros Hs j s b hist Hi. cbv zeta. pose proof (Hs b hist) as Hb. set (resp := sigma (b :: hist)) in *. clearbody resp.
+  intros Hi Hb. cbv zeta.
   destruct Hi as [[Ej [Es Eb]]|[[Ej Hp]|[[Hp Ej]|[[Hp Ej]|[Ej Hp]]]]]; subst j.
   - (* the CAP LS reply *)
     subst s b. apply (batch_init c true) in Hb. destruct Hb as [pre [x [caps [E Hpre]]]]. subst resp.
@@ -390,8 +391,8 @@ Proof.
       pose proof (ls_final2 MM s1 x caps Hf1 Hr1 Ha1 Hn1 Hi1 HM1) as H3. destruct (doCapLs c s1 [x; s_LS; caps]) as [[s2 o2] e2].
       unfold Q5 in H3. cbn [routs rstate fst snd] in *. rewrite app_nil_r. destruct H3 as [H|[H|H]].
       * left. apply aborted_app_r. exact H.
-      * right. right. exists 0%nat. split; [lia|]. right. right. right. right. split; [reflexivity|]. apply PhE_prefix; assumption.
-      * right. right. exists (2 * MM + 1)%nat. split; [lia|]. right. left. split; [reflexivity|]. apply PhR2_prefix; assumption.
+      * right. right. exists 0%nat. split; [lia|]. right. right. right. split; [reflexivity|]. apply PhE_prefix; assumption.
+      * right. right. exists (2 * MM + 1)%nat. split; [lia|]. left. split; [reflexivity|]. apply PhR2_prefix; assumption.
   - (* the answers to CAP REQ *)
     destruct Hp as [Hf [Ha [Hn [Hi0 [HM [q [caps [Eb [Hq [Htok [Hne [Hreq Hkeys]]]]]]]]]]]]. subst b.
     apply batch_quiet in Hb; [|exact Hq]. apply batch_req in Hb.
@@ -414,7 +415,7 @@ Proof.
     apply (answers_mech m resp Hm) in Hb. destruct Hb as [E|[[x E]|[x [y E]]]]; subst resp; cbn [run_msgs].
     + rewrite step_auth. pose proof (auth_plus s m HiS Hc Hm) as [H En]. destruct (doAuthenticate c s [s_PLUS] true true) as [[s1 o1] e1].
       cbn [rstate routs fst snd] in *. rewrite app_nil_r. right. right. exists (2 * length (snext s1) + 1)%nat.
-      split; [rewrite En; lia|]. right. right. right. left. split; [exact H|reflexivity].
+      split; [rewrite En; lia|]. right. right. left. split; [exact H|reflexivity].
     + rewrite step_904_eq. pose proof (try_next s HiS) as H. destruct (tryNextSasl c s) as [[s1 o1] e1].
       cbn [rstate routs fst snd] in *. rewrite app_nil_r. apply (Q4_next (length (snext s))); [exact H|lia].
     + destruct (step_908 s x) as [E1 E2]. destruct (step c s (INum 908 x)) as [[s0 o0] e0]. cbn [rstate routs fst snd] in E1, E2. subst s0 o0.
@@ -425,13 +426,22 @@ Proof.
     destruct (batch_cred g init last resp Hin Hla Hb) as [x [E|E]]; subst resp; cbn [run_msgs].
     + rewrite step_903_eq. pose proof (step_903 s HiS) as H. destruct (do903 c s) as [[s1 o1] e1].
       cbn [rstate routs fst snd] in *. rewrite app_nil_r. destruct H as [H|H]; [left; exact H|].
-      right. right. exists 0%nat. split; [lia|]. right. right. right. right. split; [reflexivity|exact H].
+      right. right. exists 0%nat. split; [lia|]. right. right. right. split; [reflexivity|exact H].
     + rewrite step_904_eq. pose proof (try_next s HiS) as H. destruct (tryNextSasl c s) as [[s1 o1] e1].
       cbn [rstate routs fst snd] in *. rewrite app_nil_r. apply (Q4_next (length (snext s))); [exact H|lia].
   - (* the welcome burst *)
     destruct Hp as [Hf [q [Eb Hq]]]. subst b. apply batch_quiet in Hb; [|exact Hq]. apply batch_single in Hb.
     assert (Hp3 : pre3 s) by (unfold pre3; rewrite Hf; reflexivity).
     destruct (welcome_run c resp Hb s Hp3) as [H|H]; [left|right; left]; exact H.
+Qed.
+
+Lemma round_cap2 sigma : (forall batch hist, answers_batch true batch (sigma (batch :: hist))) ->
+  forall j s b hist, InvS j s b ->
+  let r := run_msgs c s (sigma (b :: hist)) in
+  aborted (snd r) \/ fsm (fst r) = CONNECTED \/ exists j', (j' < j)%nat /\ InvS j' (fst r) (snd r).
+Proof.
+  intros Hs j s b hist Hi. destruct (round_cap2' j s b _ Hi (Hs b hist)) as [H|[H|[j' [Hj H]]]]; [left; exact H|right; left; exact H|].
+  right. right. exists j'. split; [exact Hj|right; exact H].
 Qed.
 
 (* the liveness clause for configurations with PLAIN / EXTERNAL mechanisms (and, with c_mechs = [], without):
